@@ -54,8 +54,15 @@ IndentOf(mal) ==
     [] mal = "indenttab" -> <<9>>
     [] OTHER -> B("    ")
 
+\* a header with white space around key and value (the parser trims both with str::trim, i.e. every Unicode
+\* White_Space character): the same record as the tidy spelling
+PadHeaderAst(key, value, pad) == [k |-> "padheader", key |-> key, value |-> value, pad |-> pad]
+
 PrintM(ast, mal) ==
-  CASE ast.k = "header" ->
+  CASE ast.k = "padheader" ->
+         B("#") \o ast.pad \o ast.key \o ast.pad
+           \o (IF ast.value = None THEN <<>> ELSE B(":") \o ast.pad \o ast.value[1] \o ast.pad)
+    [] ast.k = "header" ->
          B("# ") \o ast.key \o (IF ast.value = None THEN <<>> ELSE B(": ") \o ast.value[1])
     [] ast.k = "sourcefile" ->
          B("# {\"id\":\"sourceFile\",\"fileName\":\"") \o ast.value \o B("\"}")
@@ -81,7 +88,7 @@ PrintAst(ast) == PrintM(ast, "none")
 
 \* ---- the record a well-formed line denotes (C05, second half of sentence 1)
 Denotes(ast) ==
-  CASE ast.k = "header" -> [k |-> "header", key |-> ast.key, value |-> ast.value]
+  CASE ast.k \in {"header", "padheader"} -> [k |-> "header", key |-> ast.key, value |-> ast.value]
     [] ast.k = "sourcefile" -> [k |-> "header", key |-> B("sourceFile"), value |-> Some(ast.value)]
     [] ast.k = "class" -> [k |-> "class", original |-> ast.original, obfuscated |-> ast.obfuscated]
     [] ast.k = "field" ->
